@@ -16,7 +16,7 @@ CHECKS = {
              note='Trusted: corpus labels from the grammar; own categories from the importers\' documentation (for **mxhm HARMONY or MHXM).', ref='4 C18'),
  'C19': dict(technique='Hypothesis-generated scores cut at every set of barline positions (exhaustive per document in the thorough tier) x 3 separator conventions; equality with the import of the joined text, pair arithmetic, C07 data-line oracle per pair',
              text='Every cut of every generated score is concatenated and compared with the import of the joined text (deep snapshot and six exports); the returned pairs must be consecutive, end at the measure count and each address exactly its fragment.',
-             note='Trusted: kv/measures.py. A preamble-only first fragment is a known finding.', ref='4 C19'),
+             note='Trusted: kv/measures.py. Scores without any measure are concatenated as a single fragment only.', ref='4 C19'),
  'C20': dict(technique='Hypothesis-generated documents, renderings (LF/CRLF, final newline, non-ASCII, damaged cells), option sets and directory trees driven through a temporary directory; file path vs in-memory API and CLI (in-process + real subprocess) vs API differential, ekern/kern round trip',
              text='load vs loads (deep snapshot, errors, exports), dump vs dumps byte-exact with repeated dumps to one path, CLI converters vs the API for single files and directory trees with/without -r, and the kern->ekern->kern->ekern round trip.',
              note='Trusted: UTF-8 locale; the in-process CLI driver calls the same main() as python -m kernpy (a few real subprocess runs per check).', ref='4 C20'),
@@ -24,7 +24,7 @@ CHECKS = {
              text='All ranges of every generated score are exported and their data lines compared with the lines of the full export that the barline model assigns to the range; partition, iteration and the three rejection clauses are checked per document.',
              note='Trusted: kv/measures.py boundaries. kernpy\'s alternative numbering (an all-null stretch before the first barline counted as measure 1) is accepted and labelled. Bounded random search.', ref='4 C07'),
  'C08': dict(technique='Hypothesis-generated scores x every range; independent Humdrum well-formedness validator, re-import, text-level signature tracker on source vs excerpt',
-             text='Every excerpt of every generated score must pass an independent syntax validator, re-import cleanly and give every note the same governing clef/key/time/meter as the full score. The three classes the property designates are explored in separate profiles and tracked as known findings by exact symptom.',
+             text='Every excerpt of every generated score must pass an independent syntax validator, re-import cleanly and give every note the same governing clef/key/time/meter as the full score. The three classes the property designates (mid-score and late signatures, ranges that start inside a split, non-kern spines) are explored in separate profiles; the defects found there were repaired (F13, F16-F20), so every clause is enforced in every profile.',
              note='Trusted: kv/humdrum.py. Core = signatures before measure 1, same kinds on every spine, splits re-joined before the next barline (nested and multi-way joins included).', ref='4 C08'),
  'C10': dict(technique='exhaustive grid (11,025 calls + one-note documents) + Hypothesis documents with clef changes in sub-spines; diatonic translation model and clef-in-force from the spine-path model',
              text='The whole pitch x clef grid is enumerated against the translation model and laws that do not depend on the bottom-line constant; documents check that each note is converted under the clef the path model says governs it and that nothing else differs from the kern export.',
